@@ -24,6 +24,7 @@ func checkC16(p *Prog, r *Report) {
 	checkPerFileState(p, r)
 	checkAllCandidates(p, r)
 	checkEveryOffset(p, r)
+	checkTagOrder(p, r)
 	r.Trust("MD4 and the weak checksum as defined in rsyncchecksum (agreement of both ends: C02/ONE-DEFINITION)")
 	r.Uncovered("the rolling-checksum algebra (s1/s2 update ≡ Checksum1 of the shifted window), the tag function, block-size selection, the `end` bound, and therefore the quantitative bound on literal bytes: arithmetic over runtime data, not decidable by structural rules")
 }
@@ -697,4 +698,111 @@ func loopAdvancesPosition(li *loopInfo, m ssa.CallInstruction) bool {
 		}
 	}
 	return false
+}
+
+// checkTagOrder — C16/TAG-ORDER: hashSearch walks the candidates of a tag as a
+// contiguous run of the sorted targets, starting at the table's index; that
+// only finds every candidate if the sort really orders by tag.
+func checkTagOrder(p *Prog, r *Report) {
+	rule := "C16/TAG-ORDER"
+	r.Rule(rule, "the block targets are sorted by tag with a comparator that is an ordering of the two tags: sort.Slice/SliceStable with `a.tag < b.tag`, or slices.SortFunc/SortStableFunc with cmp.Compare(a.tag, b.tag) or a difference computed after widening to a signed type (a difference of the unsigned 16-bit tags wraps and never goes negative, leaving the list unsorted: candidates with equal tags are then not adjacent and all but the first are never compared)", 1)
+	g := p.ModGraph()
+	sf := p.Func(pkgSender, "Transfer", "SendFiles")
+	tagF := p.Field(pkgSender, "target", "tag")
+	if sf == nil || tagF == nil {
+		r.Unk(rule, "anchors", "-", "SendFiles / target.tag not found")
+		return
+	}
+	isTag := func(v ssa.Value) bool {
+		_, f := loadedField(v)
+		return f == tagF
+	}
+	n := 0
+	for _, fn := range g.unitFuncs(sf) {
+		allCalls(fn, func(c ssa.CallInstruction) {
+			name := calleeName(c)
+			var cmpFn *ssa.Function
+			less := false
+			switch name {
+			case "sort.Slice", "sort.SliceStable":
+				less = true
+			case "slices.SortFunc", "slices.SortStableFunc":
+			default:
+				if sc := c.Common().StaticCallee(); sc == nil || sc.Origin() == nil || (sc.Origin().String() != "slices.SortFunc" && sc.Origin().String() != "slices.SortStableFunc") {
+					return
+				}
+			}
+			a := c.Common().Args
+			if len(a) != 2 {
+				return
+			}
+			// only sorts of []target
+			if sl, ok := stripIface(a[0]).Type().Underlying().(*types.Slice); !ok || !types.Identical(sl.Elem(), tagF.Pkg().Scope().Lookup("target").Type()) {
+				return
+			}
+			switch x := stripConv(a[1]).(type) {
+			case *ssa.MakeClosure:
+				cmpFn, _ = x.Fn.(*ssa.Function)
+			case *ssa.Function:
+				cmpFn = x
+			}
+			n++
+			key := funcKey(fn) + " sorts the targets"
+			if cmpFn == nil || cmpFn.Blocks == nil {
+				r.Unk(rule, key, p.Pos(instrPos(c)), "comparator is not a function literal or named function")
+				return
+			}
+			ok := true
+			why := ""
+			for _, b := range cmpFn.Blocks {
+				ret, isRet := lastInstr(b).(*ssa.Return)
+				if !isRet {
+					continue
+				}
+				for _, leaf := range phiLeaves(retResults(ret)[0]) {
+					if _, isK := constInt(leaf); isK {
+						continue // -1/0/+1 (or true/false) chosen by comparisons: accepted when those comparisons are on tags (below)
+					}
+					if cst, isC := leaf.(*ssa.Const); isC && cst != nil {
+						continue
+					}
+					switch y := leaf.(type) {
+					case *ssa.BinOp:
+						switch {
+						case less && y.Op == token.LSS && isTag(y.X) && isTag(y.Y):
+						case !less && y.Op == token.SUB:
+							cx, okx := y.X.(*ssa.Convert)
+							cy, oky := y.Y.(*ssa.Convert)
+							if !(okx && oky && isTag(cx.X) && isTag(cy.X) && !isUnsigned(cx.Type()) && sizeofBasic(cx.Type().Underlying().(*types.Basic)) > 2) {
+								ok, why = false, "the comparator returns a difference that is not computed in a wider signed type"
+							}
+						default:
+							ok, why = false, "the comparator returns `"+y.String()+"`"
+						}
+					case *ssa.Call:
+						if !less && calleeName(y) != "" && (y.Common().StaticCallee() != nil && y.Common().StaticCallee().Origin() != nil && y.Common().StaticCallee().Origin().String() == "cmp.Compare") && isTag(y.Common().Args[0]) && isTag(y.Common().Args[1]) {
+							continue
+						}
+						ok, why = false, "the comparator returns `"+y.String()+"`"
+					case *ssa.Convert:
+						// int(a.tag - b.tag): difference taken in the narrow unsigned type
+						ok, why = false, "the comparator converts `"+y.X.String()+"` after the subtraction: the difference of two uint16 tags wraps"
+					default:
+						ok, why = false, "the comparator returns `"+leaf.String()+"`"
+					}
+				}
+			}
+			r.Cond(ok, rule, key, p.Pos(instrPos(c)), why+": the targets are not ordered by tag, so the candidates of a tag are not a contiguous run")
+		})
+	}
+	if n == 0 {
+		r.Unk(rule, "sort of the targets", p.Pos(sf.Pos()), "no sort.Slice / slices.SortFunc over []target in the SendFiles unit: the table is built differently now, re-read")
+	}
+}
+
+func stripIface(v ssa.Value) ssa.Value {
+	if mi, ok := v.(*ssa.MakeInterface); ok {
+		return mi.X
+	}
+	return v
 }
